@@ -1,10 +1,6 @@
 // replay for property C08, harness population::greedy::verif_kani_proofs::c08_greedy_add_all_step (crate rosomaxa, proof module greedy)
 // failed: assertion failed: le(best.f, batch[idx].f) @ greedy_proofs.rs:73
 // run: /verif/check --replay /verif/replays/C08/c08_greedy_add_all_step.rs
-/// Test generated for harness `population::greedy::verif_kani_proofs::c08_greedy_add_all_step` 
-///
-/// Check for `assertion`: "assertion failed: le(best.f, batch[idx].f)"
-
 #[test]
 fn kani_concrete_playback_c08_greedy_add_all_step_9498392029691900043() {
     let concrete_vals: Vec<Vec<u8>> = vec![
@@ -24,10 +20,6 @@ fn kani_concrete_playback_c08_greedy_add_all_step_9498392029691900043() {
     kani::concrete_playback_run(concrete_vals, c08_greedy_add_all_step);
 }
 
-/// Test generated for harness `population::greedy::verif_kani_proofs::c08_greedy_add_all_step` 
-///
-/// Check for `cover`: "improved-by-batch"
-
 #[test]
 fn kani_concrete_playback_c08_greedy_add_all_step_11923552793560146811() {
     let concrete_vals: Vec<Vec<u8>> = vec![
@@ -46,10 +38,6 @@ fn kani_concrete_playback_c08_greedy_add_all_step_11923552793560146811() {
     ];
     kani::concrete_playback_run(concrete_vals, c08_greedy_add_all_step);
 }
-
-/// Test generated for harness `population::greedy::verif_kani_proofs::c08_greedy_add_all_step` 
-///
-/// Check for `cover`: "batch-not-better"
 
 #[test]
 fn kani_concrete_playback_c08_greedy_add_all_step_2675332283984453863() {
